@@ -72,15 +72,37 @@ CASES = [
 ]
 
 
+def thorough_cases():
+    """quick cases plus a deterministic pseudo-random dyadic grid inside envelope E (f32 part): scales 2^-10..2^10,
+    shapes k/8 in [0.5, 20] and a few large ones, locations in {0, +-1, +-3, 16}, Triangular with dyadic corners"""
+    import random
+    rnd = random.Random(20261003)
+    cs = list(CASES)
+    sc = lambda: 2.0 ** rnd.randint(-10, 10) * rnd.choice([1, 1, 1.5, 1.25])
+    sh = lambda: rnd.choice([rnd.randint(4, 160) / 8.0, rnd.choice([0.5, 0.625, 1.0, 1.125, 2.0, 40.0, 64.0, 100.0])])
+    loc = lambda: rnd.choice([0, 0, 1, -1, 3, -3, 16])
+    for _ in range(20):
+        cs.append(('Cauchy', [loc(), sc()], cauchy))
+        cs.append(('Gumbel', [loc(), sc()], gumbel))
+    for _ in range(25):
+        cs.append(('Pareto', [sc(), sh()], pareto))
+        cs.append(('Weibull', [sc(), sh()], weibull))
+        cs.append(('Frechet', [loc(), sc(), sh()], frechet))
+    for _ in range(25):
+        a = rnd.randint(-64, 64) / 8.0; w = 2.0 ** rnd.randint(-6, 8); m = rnd.choice([0, 0, 1, 2, 3, 4, 5, 6, 7, 8, 8]) / 8.0
+        cs.append(('Triangular', [a, a + w, a + w * m], triangular))
+    return cs
+
+
 def limbs(v):
     v = int(v)
     assert 0 <= v <= 1 << 64
     return '<<%d, %d, %d>>' % (v >> 42, (v >> 21) & 0x1fffff, v & 0x1fffff)
 
 
-def main(out):
+def table(cases):
     rows = []
-    for ci, (fam, params, mk) in enumerate(CASES):
+    for ci, (fam, params, mk) in enumerate(cases):
         F, Q, scale = mk(*[mpf(x) for x in params])
         anchors = []
         for p, pn in zip(P, PN):
@@ -92,20 +114,31 @@ def main(out):
             anchors.append('[p |-> "%s", x |-> "%s", lo |-> %s, hi |-> %s]' % (pn, mp.nstr(x, 25, strip_zeros=False, min_fixed=-1000, max_fixed=1000), limbs(lo), limbs(hi)))
         rows.append('  [id |-> %d, fam |-> "%s", params |-> <<%s>>,\n   anchors |-> <<\n     %s>>]' % (
             ci + 1, fam, ', '.join('"%s"' % repr(float(x)) for x in params), ',\n     '.join(anchors)))
+    return ',\n'.join(rows)
+
+
+def main(out):
+    tc = thorough_cases()
     text = '''--------------------------- MODULE QuantileTable ---------------------------
 (***************************************************************************)
 (* GENERATED by tools/gen_quantile_table.py (mpmath, 60 digits) - do not   *)
 (* edit.  Reference values of the documented CDFs of the one-uniform       *)
 (* samplers: for anchor x = F^-1(p), [lo, hi] = 2^64 * [F(x-d), F(x+d)],   *)
 (* d = 2^-20 max(|x|, scale 2^-10), as limb triples (22+21+21 bits).       *)
+(* QTable: the quick tier's cases; QTableT: the thorough tier's (a         *)
+(* superset: QTable plus a deterministic pseudo-random dyadic grid).       *)
 (***************************************************************************)
 QTable == <<
 %s
 >>
+
+QTableT == <<
+%s
+>>
 =============================================================================
-''' % ',\n'.join(rows)
+''' % (table(CASES), table(tc))
     open(out, 'w').write(text)
-    print('wrote', out, len(CASES), 'cases', len(CASES) * len(P), 'anchors')
+    print('wrote', out, len(CASES), 'quick cases', len(tc), 'thorough cases')
 
 
 if __name__ == '__main__':
